@@ -147,15 +147,29 @@ func (router *Router) FindRoute(req *http.Request) (*routers.Route, map[string]s
 		if pathItem == nil {
 			return nil, nil, &routers.RouteError{Reason: routers.ErrPathNotFound.Error()}
 		}
-		if pathItem.GetOperation(method) == nil {
+		// Operations() is keyed by the standard upper-case method names and, unlike
+		// GetOperation, does not panic on any other method.
+		operation := pathItem.Operations()[method]
+		if operation == nil {
 			return nil, nil, &routers.RouteError{Reason: routers.ErrMethodNotAllowed.Error()}
+		}
+		route = &routers.Route{
+			Spec:      doc,
+			Server:    server,
+			Path:      remainingPath,
+			PathItem:  pathItem,
+			Method:    method,
+			Operation: operation,
 		}
 	}
 
 	if pathParams == nil {
 		pathParams = make(map[string]string, len(paramValues))
 	}
-	paramKeys := node.VariableNames
+	var paramKeys []string
+	if node != nil {
+		paramKeys = node.VariableNames
+	}
 	for i, value := range paramValues {
 		key := strings.TrimSuffix(paramKeys[i], "*")
 		pathParams[key] = value
